@@ -20,6 +20,7 @@ func init() {
 	vRegister("H15_vecmerge", H15_vecmerge)
 	vRegister("H16_history", H16_history)
 	vRegister("H19_faults", H19_faults)
+	vRegister("H16_recheck", H16_recheck)
 	vNativeResetHooks = append(vNativeResetHooks, faiss.VerifReset)
 }
 
@@ -63,6 +64,10 @@ func vGenVecBatch(prefix string, nDocs int, sim string) ([]index.Document, []sVe
 			c := vChoice(fmt.Sprint(prefix, "vec", d, "_", i), vParam("nCat", len(vCatalogue)))
 			doc.fields = append(doc.fields, &vVecField{name: "v", vec: vCatalogue[c], sim: sim})
 			vecs = append(vecs, sVec{uint64(d), vCatalogue[c]})
+		}
+		if vParam("secondField", 0) == 1 && vBool(fmt.Sprint(prefix, "u", d)) {
+			// a second vector field "u" (sorts before "v") with one fixed vector
+			doc.fields = append(doc.fields, &vVecField{name: "u", vec: vCatalogue[4], sim: sim})
 		}
 		docs = append(docs, doc)
 	}
@@ -317,6 +322,8 @@ func H15_vecmerge() {
 	if len(want) == 0 {
 		_, has := st.n["num_vectors/v"]
 		vAssert(!has, "no-index-without-survivors")
+	} else {
+		vAssert(st.n["num_vectors/v"] == uint64(len(want)), "merged-num-vectors")
 	}
 	vi.Close()
 	vAssert(m.Close() == nil, "close-merged")
@@ -508,4 +515,56 @@ func H19_faults() {
 	pl, err := vi.Search(vCatalogue[0], 4, nil)
 	vAssert(err == nil && pl.Count() == 3, "silently-incomplete")
 	vi.Close()
+}
+
+// H16_recheck: the branch of the cache that an opener takes when it missed under the read lock but finds the
+// entry created by a concurrent opener once it holds the write lock (the losing side of a race): entered
+// directly, with the entry present, it must answer exactly as a hit does - the caller's own exclusion list,
+// the complete id maps, one more reference.
+func H16_recheck() {
+	sim := index.EuclideanDistance
+	docs := []index.Document{
+		&vDoc{id: "d0", fields: []index.Field{vIDField("d0"), &vVecField{name: "v", vec: vCatalogue[0], sim: sim}}},
+		&vDoc{id: "d1", fields: []index.Field{vIDField("d1"), &vVecField{name: "v", vec: vCatalogue[1], sim: sim}, &vVecField{name: "v", vec: vCatalogue[4], sim: sim}}},
+	}
+	var z ZapPlugin
+	segI, _, err := z.newWithChunkMode(docs, DefaultChunkMode)
+	vAssert(err == nil, "build")
+	sb := segI.(*SegmentBase)
+	// the winner of the race: an opener without exclusions created the entry
+	first, err := sb.InterpretVectorIndex("v", vBool("winnerFiltered"), nil)
+	vAssert(err == nil && first != nil, "first-open")
+	fieldIDPlus1 := sb.fieldsMap["v"]
+	vc := sb.vecIndexCache
+	except, excl := vExcept("ex", 2)
+	wantMaps := vBool("loserFiltered")
+	vc.m.Lock()
+	idx, vecDocIDMap, docVecIDMap, toExclude, err := vc.createAndCacheLOCKED(fieldIDPlus1, nil, wantMaps, except)
+	vc.m.Unlock()
+	vAssert(err == nil && idx != nil, "recheck-index")
+	vAssert(len(vecDocIDMap) == 3, "complete-id-map")
+	nEx := 0
+	for id, d := range vecDocIDMap {
+		if excl[d] {
+			nEx++
+			found := false
+			for _, e := range toExclude {
+				if e == id {
+					found = true
+				}
+			}
+			vAssert(found, "excluded-id-listed")
+		}
+	}
+	vAssert(len(toExclude) == nEx, "exclusion-list-exact")
+	if wantMaps {
+		vAssert(len(docVecIDMap) == 2 && len(docVecIDMap[1]) == 2, "doc-to-vector-map")
+	}
+	// two references are out now: both are given back, then the segment closes cleanly
+	vc.decRef(fieldIDPlus1)
+	first.Close()
+	vAssert(sb.Close() == nil, "close")
+	vRunSpawned()
+	vAssert(faiss.VerifLive() == 0, "no-live-index")
+	vAssert(faiss.VerifDoubleClosed() == 0 && faiss.VerifUsedAfterClose() == 0, "no-misuse")
 }
